@@ -5,7 +5,7 @@ from collections import Counter
 from hypothesis import strategies as st
 
 from vlib import gen, stores
-from vlib.runner import Violation, sut
+from vlib.runner import Stats, Violation, case_hash, sut
 
 ID = "C02"
 RULE = (
@@ -268,3 +268,56 @@ def run_case(case):
     if any(runs[be].choices != ref.choices for be in ("sqlite", "peewee")):
         classes.append("tie_choice_differs_across_backends")
     return {"nontrivial": f["nontrivial"] > 0, "classes": classes, "evals": 3 * len(case["ops"])}
+
+
+# ---------------------------------------------------------------------------
+# exhaustive small scope: EVERY history up to a length over a small operation alphabet, on all three backends
+
+_E = [
+    {"slot": 1, "dur_s": 1, "sub_us": 0, "data": {"k": "A"}},
+    {"slot": 2, "dur_s": 0, "sub_us": 0, "data": {"k": "B"}},  # zero-length, starts at the end of _E[0]: end-instant tie
+    {"slot": 1, "dur_s": 2, "sub_us": 0, "data": {"k": "C"}},  # same timestamp as _E[0]: timestamp tie
+]
+ALPHABET = [
+    {"op": "insert", "b": 0, "e": _E[0]},
+    {"op": "insert", "b": 0, "e": _E[1]},
+    {"op": "insert", "b": 0, "e": _E[2]},
+    {"op": "insert_many", "b": 0, "es": [_E[1], _E[0]]},
+    {"op": "upsert_many", "b": 0, "items": [{"e": _E[2], "k": 0}, {"e": _E[1], "k": None}]},
+    {"op": "replace", "b": 0, "k": 0, "e": _E[1]},
+    {"op": "replace", "b": 0, "k": 1, "e": _E[2]},
+    {"op": "replace_last", "b": 0, "e": _E[0]},
+    {"op": "replace_last", "b": 0, "e": _E[1]},
+    {"op": "delete", "b": 0, "k": 0, "never": False},
+    {"op": "delete", "b": 0, "k": 1, "never": False},
+    {"op": "delete", "b": 0, "k": 0, "never": True},
+    {"op": "insert", "b": 1, "e": _E[1]},
+]
+EXHAUSTIVE_NOTE = f"extra phase 'small_scope': every history of length <= L over an alphabet of {len(ALPHABET)} operations (inserts of three events with timestamp and end-instant ties, bulk insert, upsert, replace, replace_last, delete of first/second/never-issued id, insert into a second bucket), on all three backends (quick L=3: 2 379 histories; thorough L=4: 30 940)"
+
+
+def extra_phases(tier, seed, jobs):
+    return [("small_scope", "phase_small_scope", [{"i": i, "n": jobs, "L": 3 if tier == "quick" else 4} for i in range(jobs)])]
+
+
+def phase_small_scope(task):
+    import itertools
+
+    st_ = Stats()
+    k = 0
+    for L in range(1, task["L"] + 1):
+        for combo in itertools.product(range(len(ALPHABET)), repeat=L):
+            k += 1
+            if k % task["n"] != task["i"]:
+                continue
+            case = {"nb": 2, "ops": [json.loads(json.dumps(ALPHABET[j])) for j in combo]}
+            try:
+                run_case(case)
+            except Violation as v:
+                st_.failure = {"kind": "case", "case": case, "message": v.msg}
+                return st_
+            st_.evals += 3
+            st_.cases += 1
+    st_.classes["histories_enumerated"] = st_.cases
+    st_.notes["histories_enumerated"] = st_.cases
+    return st_
